@@ -11,7 +11,7 @@ from vf.ref import schemafp_lite
 
 ID = "C18"
 BOUNDS = {
-    "quick": "22 hand schemas (every type kind, deprecations incl. empty reasons, defaults of every input kind, OneOf, specifiedBy, repeatable directives, non-default roots, programmatic schemas with explicit directive lists) + the schema-family enumerator with <=1 feature x all 128 option combinations of the introspection query x ad-hoc selections (every type name and one unknown through __type, includeDeprecated true/false on fields / args / inputFields / enumValues / directives)",
+    "quick": "22 hand schemas (every type kind, deprecations incl. empty reasons, defaults of every input kind, OneOf, specifiedBy, repeatable directives, non-default roots, programmatic schemas with explicit directive lists) x all 128 option combinations of the introspection query; the schema family with <=1 feature (SDL and programmatic) x 16 option sets (all on, all off, each single option on / off) x ad-hoc selections (every type name and one unknown through __type, includeDeprecated true/false on fields / args / inputFields / enumValues / directives)",
     "thorough": "schema family with <=2 features",
 }
 RULE = (
@@ -76,17 +76,15 @@ def all_schemas(tier):
 
     out = [(f"sdl{i}", build_schema(s)) for i, s in enumerate(SDLS)]
     out += programmatic_schemas()
-    try:
-        from vf.gen import schemas as gs
+    from vf.gen import schemas as gs
 
-        k = 1 if tier == "quick" else 2
-        for ids in gs.enumerate_feature_sets(k) if hasattr(gs, "enumerate_feature_sets") else []:
-            try:
-                out.append(("fam:" + ",".join(map(str, ids)), build_schema(gs.build_sdl(ids))))
-            except Exception:  # noqa: BLE001
-                pass
-    except Exception:  # noqa: BLE001
-        pass
+    k = 1 if tier == "quick" else 2
+    for ids in gs.enumerate_schemas(k, experimental=False):
+        if not ids:
+            continue
+        out.append(("fam:" + ",".join(map(str, ids)), build_schema(gs.build_sdl(ids))))
+        if len(ids) == 1:
+            out.append(("famprog:" + ",".join(map(str, ids)), gs.build_programmatic(ids)))
     return out
 
 
@@ -223,7 +221,17 @@ def check_schema(label, schema, res, viol):
 
     all_on = dict.fromkeys(OPTION_NAMES, True)
     results = {}
-    for bits in itertools.product([False, True], repeat=7):
+    if label.startswith("fam"):
+        # schema family: all options on, all off, each single option off, each single option on (16 sets);
+        # the hand-written schemas run all 128
+        bit_sets = {(True,) * 7, (False,) * 7}
+        for i in range(7):
+            bit_sets.add(tuple(j != i for j in range(7)))
+            bit_sets.add(tuple(j == i for j in range(7)))
+        bit_sets = sorted(bit_sets)
+    else:
+        bit_sets = list(itertools.product([False, True], repeat=7))
+    for bits in bit_sets:
         opts = dict(zip(OPTION_NAMES, bits))
         res.evaluations += 1
         res.executions += 1
